@@ -6,6 +6,7 @@ import numpy as np
 
 from .. import core
 from ..translate import guards as tr_guards
+from ..translate import metrics as tr_metrics
 
 ID = "C16"
 PROPS_FILE = "C16"
@@ -18,6 +19,7 @@ RULE = ("correspondence (exact rationals): the extracted Gallina model Metrics/M
         "additivity, zero/positive/symmetric/homogeneous, Sobolev split, correlation bounds, option validation). Non-trivial: non-constant states with energy in "
         "every stored mode (white noise) or in the top mode (N-1)/2 of the last axis and in a mode with dominant negative leading-axis wavenumber (polynomials); "
         "distinct by input hash.")
+TRUSTED_EXTRA = ["harness/translate/metrics.py (spatial_norm / fourier_norm executed per mode; vmap of the aggregator read as the per-channel aggregate; wrappers as exponent tables; H1 / mean_metric / correlation compared as text) and harness/translate/guards.py"]
 ASSUMPTIONS = [
     "fourier_aggregator's absolute 1e-5 floor on rfftn coefficients is not modelled: statements hold for spectra whose coefficients are 0 or above the floor",
     "rfftn is the DFT with w = exp(-2 pi i / N) restricted to the half spectrum, and is linear (C04)",
@@ -29,7 +31,16 @@ TWO_PI = 2 * math.pi
 
 
 def translate(ctx):
-    tr_guards.run()
+    """Gen/Guards.v (rejection guards) and Gen/MetricsGen.v (mode logic, aggregator, exponent tables of exponax/metrics; theorem
+    C16_code_norms_are_model_norms); both are always attempted"""
+    errors = []
+    for name, tr in (("guards", tr_guards), ("metrics", tr_metrics)):
+        try:
+            tr.run()
+        except Exception as e:
+            errors.append(f"{name}: {type(e).__name__}: {e}")
+    if errors:
+        raise RuntimeError("; ".join(errors))
 
 
 def _ex():
